@@ -8,7 +8,7 @@ type case = { scenario : string; srcpw : string; tgtpw : string; level : string;
 
 let id = "C19"
 let rule = "scenarios sync (NewDbSyncer + Sync: start banner, checkpoint load, PSYNC with AUTH, full sync through the worker pool, incremental sync, a dropped source \
-connection and its re-established PSYNC), restore, rump, dump and cluster (a cluster source with no reachable master: topology re-discovery gives up after its retry budget and the run aborts; output captured through a side file), each with distinct random sentinel passwords for source and target (printable, with spaces, quotes, \
+connection and its re-established PSYNC), restore, rump, dump, restart (a source refusing connections: the syncer restarts itself until its failure budget is used up and aborts) and cluster (a cluster source with no reachable master: topology re-discovery gives up after its retry budget and the run aborts; output captured through a side file), each with distinct random sentinel passwords for source and target (printable, with spaces, quotes, \
 percent signs, JSON-special characters; also empty) x log level error/info/debug; all bytes written through pkg/libs/log and the documents GetSafeOptions / GetExtraInfo \
 (JSON and %v) are searched for the sentinels; the run must really have authenticated with them (AUTH seen by the fakes); non-trivial = both passwords non-empty; distinct by wire line"
 
@@ -33,6 +33,7 @@ let gen st tier =
   let n = if tier = "thorough" then 400 else 48 in
   List.init n (fun i -> gen_case st (List.nth [ "sync"; "sync"; "restore"; "rump"; "dump"; "sync" ] (i mod 6)))
   @ List.init (if tier = "thorough" then 4 else 1) (fun _ -> { (gen_case st "cluster") with level = "error" })
+  @ List.init (if tier = "thorough" then 4 else 1) (fun _ -> { (gen_case st "restart") with level = "error" })
 
 let corpus = [ { (gen_case (Random.State.make [| 19 |]) "sync") with srcpw = "SRC-sentinel-0001"; tgtpw = "TGT-sentinel-0002"; level = "info" } ]
 
@@ -49,14 +50,14 @@ let fail kind sig_ model impl detail = Fail { kind; sig_; model; impl; detail }
 let judge c obs =
   let impl = let s = String.concat " " obs in if String.length s > 1500 then String.sub s 0 1500 ^ "..." else s in
   let has_sub s sub = let n = String.length sub in let rec go i = i + n <= String.length s && (String.sub s i n = sub || go (i + 1)) in n > 0 && go 0 in
-  if c.scenario = "cluster" then begin
+  if c.scenario = "cluster" || c.scenario = "restart" then begin
     (* the start path gives up (no master reachable) and exits: what it printed is in the side file *)
     match Srcgen.field obs "abort", Srcgen.field obs "side" with
     | Some _, Some h ->
         let out = string_of_hex h in
-        if has_sub out c.srcpw then fail "oracle" "cluster:source-password-in-log" "no occurrence of either password" (String.escaped (if String.length out > 600 then String.sub out (String.length out - 600) 600 else out)) "the source password appears in the log output of the failed topology discovery"
-        else if has_sub out c.tgtpw then fail "oracle" "cluster:target-password-in-log" "no occurrence of either password" (String.escaped (if String.length out > 600 then String.sub out (String.length out - 600) 600 else out)) "the target password appears in the log output of the failed topology discovery"
-        else if not (has_sub out "master") then fail "diff" "scenario-incomplete" "the give-up message" impl "the cluster scenario did not reach the topology discovery failure"
+        if has_sub out c.srcpw then fail "oracle" (c.scenario ^ ":source-password-in-log") "no occurrence of either password" (String.escaped (if String.length out > 600 then String.sub out (String.length out - 600) 600 else out)) "the source password appears in the output of the aborting run"
+        else if has_sub out c.tgtpw then fail "oracle" (c.scenario ^ ":target-password-in-log") "no occurrence of either password" (String.escaped (if String.length out > 600 then String.sub out (String.length out - 600) 600 else out)) "the target password appears in the output of the aborting run"
+        else if not (has_sub out (if c.scenario = "cluster" then "master" else "max amount of failures")) then fail "diff" "scenario-incomplete" "the give-up message" impl "the scenario did not reach its give-up message"
         else Agree
     | _ -> fail "diff" "scenario-incomplete" "abort with captured output" impl "the cluster scenario did not end in the expected abort"
   end else
